@@ -73,6 +73,7 @@ type Case struct {
 	Hang     bool              `json:"hang,omitempty"`
 	Status   string            `json:"status,omitempty"`
 	GoTrim   string            `json:"go_trim_b64,omitempty"` // strings.TrimSpace of the output bytes by the real library
+	Entries  map[string]string `json:"entries_b64,omitempty"` // out: the output map as recorded in the status (key -> NAME=value), base64
 	Ms       int               `json:"ms,omitempty"`
 }
 
@@ -191,6 +192,7 @@ type Job struct {
 }
 
 type JobResult struct {
+	Entries  map[string]string `json:"entries,omitempty"`
 	Err      string            `json:"err,omitempty"`
 	Params   []string          `json:"params"`
 	Recorded string            `json:"recorded"`
@@ -361,6 +363,16 @@ func workerMain() {
 		if err := os.WriteFile(j.Status, js, 0644); err != nil {
 			panic(err)
 		}
+		// the recorded output map of the first node, byte exact as far as JSON allows
+		if st2, err := model.StatusFromJSON(string(js)); err == nil && len(st2.Nodes) > 0 && st2.Nodes[0].Step.OutputVariables != nil {
+			res.Entries = map[string]string{}
+			st2.Nodes[0].Step.OutputVariables.Range(func(k, v any) bool {
+				ks, _ := k.(string)
+				vs, _ := v.(string)
+				res.Entries[ks] = base64.StdEncoding.EncodeToString([]byte(vs))
+				return true
+			})
+		}
 	case "outB":
 		b, err := os.ReadFile(j.Status)
 		if err != nil {
@@ -461,7 +473,7 @@ func namesOf(items []Item) ([]string, int) {
 func execCase(c *Case, base string) {
 	t0 := time.Now()
 	defer func() { c.Ms = int(time.Since(t0) / time.Millisecond) }()
-	c.Params, c.Params2, c.Probes, c.Err, c.Hang, c.Recorded, c.Status, c.GoTrim = []string{}, nil, nil, "", false, "", "", ""
+	c.Params, c.Params2, c.Probes, c.Err, c.Hang, c.Recorded, c.Status, c.GoTrim, c.Entries = []string{}, nil, nil, "", false, "", "", "", nil
 	switch c.Stream {
 	case "parse", "doc":
 		if c.Stream == "doc" {
@@ -535,6 +547,7 @@ func execCase(c *Case, base string) {
 		}
 		r, hang := runJob(Job{Mode: "outA", Dir: dir, NPos: withErr, Status: stf}, wd)
 		c.Hang, c.Err, c.Status = hang, r.Err, r.Status
+		c.Entries = r.Entries
 		c.Probes = map[string]*Probe{}
 		for k, v := range r.Probes {
 			c.Probes[k] = v
